@@ -16,7 +16,27 @@ REPO = os.environ.get("VERIF_REPO", "/repo")
 OUT = os.path.join(VERIF, "coq", "theories", "gen", "ApiTables.v")
 
 
+def inputs_digest():
+    """Hash of everything the translator reads (the Go sources it parses, the module's
+    dependency pins that select the kmsg version, and the translator itself)."""
+    import hashlib
+    h = hashlib.sha256()
+    for f in ["cmd/broker/main.go", "cmd/proxy/main.go", "pkg/protocol/response.go", "pkg/protocol/api.go", "go.mod", "go.sum"]:
+        try:
+            h.update(f.encode() + b"\0" + open(os.path.join(REPO, f), "rb").read())
+        except OSError:
+            h.update(f.encode() + b"\0<missing>")
+    h.update(open(os.path.join(HERE, "main.go"), "rb").read())
+    return h.hexdigest()
+
+
 def main():
+    digest = inputs_digest()
+    stamp = os.path.join(VERIF, ".work", "apitables.stamp")
+    marker = "(* inputs sha256 " + digest + " *)"
+    # unchanged inputs and the file on disk was produced from them: nothing to do
+    if os.path.exists(OUT) and marker in open(OUT).read():
+        return 0
     env = dict(os.environ)
     env["GOFLAGS"] = "-mod=mod"
     env["GOPROXY"] = "off"
@@ -32,10 +52,11 @@ def main():
         sys.stderr.write(p.stdout[-2000:] + p.stderr[-4000:])
         return 1
     os.makedirs(os.path.dirname(OUT), exist_ok=True)
+    new = p.stdout.rstrip("\n") + "\n" + marker + "\n"
     old = open(OUT).read() if os.path.exists(OUT) else None
-    if old != p.stdout:
+    if old != new:
         tmp = OUT + ".tmp%d" % os.getpid()
-        open(tmp, "w").write(p.stdout)
+        open(tmp, "w").write(new)
         os.replace(tmp, OUT)
         print("gen/ApiTables.v updated")
     return 0
